@@ -1,5 +1,7 @@
 import Driver.Bitmap
 import Driver.Strings
+import Driver.Topo
+import Driver.CpuKinds
 open Driver
 
 def main (args : List String) : IO UInt32 := do
@@ -11,6 +13,12 @@ def main (args : List String) : IO UInt32 := do
     return 0
   | ["strings"] =>
     lineLoop stdin stdout () StringsEng.step
+    return 0
+  | ["topo"] =>
+    lineLoop stdin stdout ({} : TopoEng.Partial) TopoEng.step
+    return 0
+  | ["cpukinds"] =>
+    lineLoop stdin stdout CpuKindsEng.init CpuKindsEng.step
     return 0
   | _ =>
     IO.eprintln "usage: hwmodel <engine>"
